@@ -30,7 +30,9 @@ Definition connect_wire_decode (j : jwire) : option N :=
 
 (* connectUnaryClientConn.validateResponse: Some c = the call fails with code c *)
 Definition connect_unary_validate (status : N) (encoding_known : bool) (j : jwire) : option N :=
-  if negb encoding_known then Some code_internal
+  if negb encoding_known then
+    (* a body the client cannot read: internal for a 200, else the HTTP status decides *)
+    if status =? 200 then Some code_internal else Some (connect_http_to_code status)
   else if status =? 200 then None
   else match connect_wire_decode j with
        | Some c => Some c
@@ -151,7 +153,8 @@ Qed.
 Lemma connect_unary_validate_nonzero status enc j c :
   connect_unary_validate status enc j = Some c -> c <> 0.
 Proof.
-  unfold connect_unary_validate. destruct (negb enc); [intro H; inversion H; discriminate|].
+  unfold connect_unary_validate. destruct (negb enc).
+  { destruct (status =? 200); intro H; inversion H; [discriminate | apply connect_http_to_code_nonzero]. }
   destruct (status =? 200); [discriminate|].
   destruct (connect_wire_decode j) as [c'|] eqn:E.
   - intro H. inversion H; subst. eapply connect_wire_decode_nonzero. exact E.
@@ -160,12 +163,13 @@ Qed.
 
 (* a non-200 unary response that carries no valid protocol-level error: the
    code is derived from the HTTP status *)
-Lemma connect_unary_status_code status j :
-  status <> 200 -> connect_wire_decode j = None ->
-  connect_unary_validate status true j = Some (connect_http_to_code status).
+Lemma connect_unary_status_code status enc j :
+  status <> 200 -> (enc = false \/ connect_wire_decode j = None) ->
+  connect_unary_validate status enc j = Some (connect_http_to_code status).
 Proof.
-  intros Hs Hj. unfold connect_unary_validate. cbn [negb].
-  apply N.eqb_neq in Hs. rewrite Hs, Hj. reflexivity.
+  intros Hs H. unfold connect_unary_validate. apply N.eqb_neq in Hs. rewrite Hs.
+  destruct enc; cbn [negb]; [|reflexivity].
+  destruct H as [H|H]; [discriminate | rewrite H; reflexivity].
 Qed.
 
 Lemma connect_stream_validate_nonzero status enc c :
